@@ -402,8 +402,8 @@ NSHARDS = 16
 
 
 def shards(tier, seed):
-    cnt = 120 if tier == "quick" else 8000
-    return [{"name": f"rand{i}", "kind": "rand", "i": i, "count": cnt, "budget_s": 90 if tier == "quick" else 1200}
+    cnt = 120 if tier == "quick" else 40000
+    return [{"name": f"rand{i}", "kind": "rand", "i": i, "count": cnt, "budget_s": 90 if tier == "quick" else 3600}
             for i in range(NSHARDS)]
 
 
